@@ -29,7 +29,7 @@ static pthread_t main_thread;
 static _Atomic int sig_target = -1;
 static pid_t child_pid;
 static _Atomic int child_alive;
-static int g_burst;
+static int g_burst, bursts_done;
 
 static struct {
 	uint64_t cases, posts, entries, sig_posts, thread_posts, owner_posts, child_posts, burst_posts, obligations, discharged,
@@ -287,7 +287,9 @@ static void run_case(long id, uint64_t seed)
 	for (i = 0; i < np; i++) {
 		posters[i].idx = i;
 		posters[i].nposts = 2 + rng_n(&r, 40);
-		posters[i].burst = g_burst && rng_pct(&r, 4);
+		posters[i].burst = g_burst && bursts_done < 3 && rng_pct(&r, 6);
+		if (posters[i].burst)
+			bursts_done++;
 		if (posters[i].burst)
 			S.bursts++;
 		rng_seed(&posters[i].rng, cs, 5000 + i);
